@@ -480,3 +480,56 @@ for local_names, free_names in (({"north", "south", "east", "west"}, {"helper", 
 # C10 ("evaluates during compilation to exactly the values CPython produces"): a definition cached with the values its global /
 # closure names had in an EARLIER compilation is evaluated with stale values -- the discard on every exit is part of C10 as well
 contract("cohdl._compiler.frontend._prepare_ast:ConvertPythonInstance.__exit__", ("C10",))
+
+
+# C10: a free name that is bound nowhere is a NameError in CPython.  In an imported module `__builtins__` is a DICTIONARY: looking the
+# name up with hasattr() finds the dictionary's own methods (`get`, `keys`, `items` ...) -- such names must be rejected, also
+# `__class__`-like special cases excepted only for the name `__class__`
+def undefined_spec(sx, self, ln, nn, gd, nd):
+    sx.reject(AssertionError)
+
+
+_cap = contract("cohdl._core._collect_ast_and_scope:_ScopeBase._capture_env", ("C10",))
+for _name in ("get", "keys", "items", "undefined_name"):
+    for _builtins_kind in ("dict", "module"):
+        import builtins as _builtins_mod
+
+        c = Case(f"undefined-free-name:{_name},__builtins__-is-a-{_builtins_kind}",
+                 [Built([], lambda env: SObj(CAS8._ScopeBase), lambda a: "None", lambda a: None),
+                  Built([], lambda env: set(), lambda a: "set()", lambda a: None), Built([], (lambda n: lambda env: {n})(_name), lambda a: "None", lambda a: None),
+                  Built([], (lambda k: lambda env: {"__builtins__": {"len": len} if k == "dict" else _builtins_mod})(_builtins_kind), lambda a: "None", lambda a: None),
+                  Built([], lambda env: {}, lambda a: "{}", lambda a: None)], undefined_spec)
+        c.native = False
+        c.on_exit = capture_on_exit
+        c.custom_replay = "contracts.c11_frames.replay_undefined_name"
+        _cap.cases.append(c)
+
+_UNDEFINED_NAME_SCRIPT = '''
+import os, sys, tempfile
+import cohdl
+from cohdl import std, Entity, Port, Bit
+d = tempfile.mkdtemp()
+open(os.path.join(d, "undef_helper.py"), "w").write("def undefined_get():\\n    return get('len')\\n")
+sys.path.insert(0, d)
+import undef_helper
+class Demo(Entity):
+    a = Port.input(Bit)
+    b = Port.output(Bit)
+    def architecture(self):
+        @std.concurrent
+        def logic():
+            undef_helper.undefined_get()
+            self.b <<= self.a
+try:
+    std.VhdlCompiler.to_string(Demo)
+    print("ACCEPTED")
+except BaseException as e:
+    print("REJECTED", type(e).__name__)
+'''
+
+
+def replay_undefined_name(payload):
+    from contracts.c06_extra import _run_design
+
+    rc, out = _run_design(_UNDEFINED_NAME_SCRIPT)
+    return {"reproduced": "ACCEPTED" in out, "detail": "a function of an imported module that uses the undefined name `get` (CPython: NameError): " + out[-60:]}
